@@ -284,6 +284,22 @@ func reqCSVCols(db, meas, timeCol string, header []string, rows int, start int64
 	return r
 }
 
+// a Parquet import with a timestamp `time` column and int64 columns whose cells identify their column
+func reqParquetCols(db, meas string, names []string, rows int, start int64) reqSpec {
+	cols := []pqCol{{name: "time", kind: "ts", n: rows, base: start}}
+	vals := map[string][]int64{}
+	for j, nm := range names {
+		base := int64(100 * (j + 1))
+		cols = append(cols, pqCol{name: nm, kind: "i", n: rows, base: base})
+		for i := 0; i < rows; i++ {
+			vals[nm] = append(vals[nm], base+int64(i))
+		}
+	}
+	r := reqParquet(db, meas, buildParquet(cols), "parquet-unusual-names")
+	r.Exp = &expect{DB: db, Meas: meas, ImportEp: "parquet", ColVals: vals}
+	return r
+}
+
 func reqParquet(db, meas string, body []byte, tag string) reqSpec {
 	return reqSpec{Ep: "parquet", Body: body, Tag: tag, Query: map[string]string{"db": db, "measurement": meas}}
 }
@@ -459,12 +475,27 @@ func edgeGrid() []seqSpec {
 			{"ts", []string{"ts", " time", "v"}}, {"ts", []string{"ts", "time ", "v"}}, {"ts", []string{"ts", " ts", "v"}}, {"ts", []string{" ts", "ts", "v"}},
 			{"time", []string{"time", " ", "v"}}, {"time", []string{"time", "  ", " ", "v"}}, {"time", []string{"time", "\t", "v"}},
 			{"time", []string{"time", "a b", "a  b", "V", "v"}}, {" ts", []string{" ts", "ts", "time "}},
+			// `_`-prefixed header names: rejected since 273e2e1 (before: accepted and silently left out of the file)
+			{"time", []string{"time", "_x", "v"}}, {"time", []string{"time", "_", "v"}}, {"_ts", []string{"_ts", "v"}}, {"time", []string{"time", " _x", "v"}},
 		}
 		var rs []reqSpec
 		for i, cs := range cases {
 			rs = append(rs, reqCSVCols("db1", fmt.Sprintf("h%d", i), cs.timeCol, cs.header, 2, t))
 		}
 		one("csv-padded-header-names", rs...)
+		// parser-stage edge cases (outside the model, search only): BOM, rows longer / shorter than the header
+		one("csv-bom-and-ragged-rows",
+			reqCSV("db1", "bom", fmt.Sprintf("\xef\xbb\xbftime,v\n%d,1\n", t), "csv-bom"),
+			reqCSV("db1", "bomq", fmt.Sprintf("\xef\xbb\xbf\"time\",v\n%d,1\n", t), "csv-bom-quoted"),
+			reqCSV("db1", "long", fmt.Sprintf("time,v\n%d,1,2,3\n", t), "csv-row-longer-than-header"),
+			reqCSV("db1", "short", fmt.Sprintf("time,v,w\n%d,1\n%d,2,3\n", t, t+1), "csv-row-shorter-than-header"),
+			reqCSV("db1", "bigint", fmt.Sprintf("time,v\n%d,9007199254740993\n%d,1.5\n", t, t+1), "csv-int-beyond-float53"))
+		// Parquet imports with unusual column names: 2xx => every int64 column stored under its name
+		var ps []reqSpec
+		for i, names := range [][]string{{"v", " v"}, {"_x", "v"}, {" ", "v"}, {"time ", "v"}, {"measurement", "a b"}} {
+			ps = append(ps, reqParquetCols("db1", fmt.Sprintf("pq%d", i), names, 2, t))
+		}
+		one("parquet-unusual-column-names", ps...)
 	}
 	// --- zero-row columnar record, then an import that flushes everything
 	add("empty-arrays-then-import",
